@@ -1,3 +1,4 @@
+#include "sim/simnet.h"
 #include <algorithm>
 #include <ctime>
 #include <cstdlib>
@@ -101,6 +102,12 @@ int cmd_selftest(const std::string &what) {
 	int rc = 0;
 	sim::K.reset(1600000000000LL);
 	if (what == "all" || what == "refmodel") rc |= refmodel();
+	if (what == "all" || what == "simnet") {
+		std::string rep;
+		bool ok = sim::selftest_simnet(rep);
+		printf("selftest simnet-vs-loopback: %s\n%s", ok ? "ok" : "FAILED", rep.c_str());
+		if (!ok) rc |= 1;
+	}
 	if (what == "all" || what == "determinism") rc |= determinism(what == "all" ? 100 : 1500);
 	return rc ? 2 : 0;
 }
